@@ -11,6 +11,7 @@ appended to / truncated / reversed the list it got), and the documented defaults
 else 1 - observed on the temporary file of the one-step flow; stl included unless --no_stl).
 """
 import itertools
+from pathlib import Path
 import os
 import re
 import subprocess
@@ -333,6 +334,58 @@ def check_default_device(wd, sieve, stats):
                            'summary': f'flipjump.run without io_device, history {list(hist)}: printed {got} instead of {exp}'})
 
 
+def check_path_spellings(wd, sieve, stats):
+    """the same source named in different ways (absolute, relative to the cwd, through `dir/..`, through a symlinked directory
+    and `..` - where the lexical and the real parent differ - , through a symlinked file): the fj command and the API read the
+    same file, so the .fjm bytes agree."""
+    import flipjump
+    from flipjump.fjm.fjm_consts import FJMVersion
+    from fjv.asm import quiet
+    root = wd / 'paths'
+    (root / 'project').mkdir(parents=True)
+    (root / 'libs' / 'pkg').mkdir(parents=True)
+    (root / 'project' / 'real').mkdir()
+    prog_a = PROGRAMS['nostl'][0]
+    prog_b = prog_a.replace('end:\n;end\n', 'IO+1;\nend:\n;end\n')   # one more output bit: another image
+    (root / 'libs' / 'greeting.fj').write_text(prog_a)       # what project/vendor/../greeting.fj really is
+    (root / 'project' / 'greeting.fj').write_text(prog_b)    # what it is after a lexical collapse of `vendor/..`
+    os.symlink(root / 'libs' / 'pkg', root / 'project' / 'vendor')
+    os.symlink(root / 'libs' / 'greeting.fj', root / 'project' / 'link.fj')
+    spellings = {
+        'absolute': (str(root / 'libs' / 'greeting.fj'), None),
+        'relative': ('libs/greeting.fj', root),
+        'dir-dotdot': (str(root / 'project' / 'real' / '..' / 'greeting.fj'), None),
+        'symlinked-dir-dotdot': (str(root / 'project' / 'vendor' / '..' / 'greeting.fj'), None),
+        'symlinked-dir-dotdot-relative': ('project/vendor/../greeting.fj', root),
+        'symlinked-file': (str(root / 'project' / 'link.fj'), None),
+    }
+    for name, (path, cwd) in spellings.items():
+        out1, out2, out3 = root / f'{name}-1.fjm', root / f'{name}-2.fjm', root / f'{name}-3.fjm'
+        rc1, _, se1 = cli([path, '--no_stl', '-s', '-o', str(out1)], cwd=cwd)
+        rc2, _, se2 = cli(['--asm', path, '--no_stl', '-o', str(out2)], cwd=cwd)
+        stats['cli_runs'] += 2
+        stats['configs'] += 1
+        old = os.getcwd()
+        api_err = None
+        try:
+            if cwd:
+                os.chdir(cwd)
+            with quiet():
+                flipjump.assemble([Path(path)], out3, use_stl=False, fjm_version=FJMVersion(3), print_time=False)
+        except Exception as e:  # noqa
+            api_err = f'{type(e).__name__}: {str(e)[:100]}'
+        finally:
+            os.chdir(old)
+        got = {'one-step': out1.read_bytes() if out1.exists() else f'rc={rc1} {se1[-120:].decode("latin1")}',
+               'two-step': out2.read_bytes() if out2.exists() else f'rc={rc2} {se2[-120:].decode("latin1")}',
+               'api': out3.read_bytes() if api_err is None and out3.exists() else api_err}
+        if len({repr(v) for v in got.values()}) != 1 or not isinstance(got['api'], bytes):
+            sieve.add({'kind': 'the routes do not read the same source file for one path spelling', 'class': f'path spelling {name}',
+                       'case': {'spelling': name, 'path': path, 'cwd': str(cwd) if cwd else None}, 'expected': 'byte-identical .fjm files',
+                       'observed': {k: (f'{len(v)} bytes' if isinstance(v, bytes) else v) for k, v in got.items()},
+                       'summary': f'source given as {name} ({path}): ' + str({k: (len(v) if isinstance(v, bytes) else v) for k, v in got.items()})})
+
+
 def api_user_history(part, wd):
     """what a library user may do before assembling in the same process: take the public list of stl paths and build an
     own file list out of it (the in-process API routes run after this; the fj subprocess routes are the untouched reference)"""
@@ -358,6 +411,7 @@ def work(task):
     if kind == 'defaults':
         check_defaults(wd, sieve, stats)
         check_default_device(wd, sieve, stats)
+        check_path_spellings(wd, sieve, stats)
         return stats, sieve.result(), None
     sample = None
     api_user_history(part, wd)
